@@ -7,6 +7,7 @@ import (
 	"encoding/binary"
 	"errors"
 	"fmt"
+	"io"
 	"math"
 	"net"
 	"time"
@@ -262,8 +263,9 @@ func (a *TCPAllocation) BindConnection(dataConn *TCPConn, cid proto.ConnectionID
 	}
 
 	// Read exactly one STUN message, any data after belongs to the user
+	// A stream may deliver the reply in any number of pieces: read until the header is complete.
 	b := make([]byte, stunHeaderSize)
-	n, err := dataConn.Read(b)
+	n, err := io.ReadFull(dataConn, b)
 	if n != stunHeaderSize {
 		return errIncompleteTURNFrame
 	} else if err != nil {
@@ -277,7 +279,7 @@ func (a *TCPAllocation) BindConnection(dataConn *TCPConn, cid proto.ConnectionID
 	datagramSize := binary.BigEndian.Uint16(b[2:4]) + stunHeaderSize
 	raw := make([]byte, datagramSize)
 	copy(raw, b)
-	_, err = dataConn.Read(raw[stunHeaderSize:])
+	_, err = io.ReadFull(dataConn, raw[stunHeaderSize:])
 	if err != nil {
 		return err
 	}
